@@ -29,6 +29,16 @@ def contents(p):
 
 
 def mk(content, fresh, p):
+    if content == "S4":
+        # non-integral tick values: the only public way to get them is halving odd tick distances without re-quantising
+        s = lib.seq_abs([(1, 11, p, 0, 64), (13, 24, p + 4, 0, 50), (101, 21, p + 7, 1, 9)], [("ts", 0, 4, 4)], 192)
+        s.scale(0.5, quantise_afterwards=False)
+        if fresh == "AR":
+            s.refresh()
+        elif fresh == "A":
+            s.refresh()
+            s.invalidate_rel()
+        return s
     c = contents(p)[content]
     if fresh == "R":
         return lib.seq_rel(c["notes"], c["events"], c["dur"])
@@ -43,6 +53,8 @@ for _route in ("seq_copy", "split", "bars_q", "bars_nq"):
     for _c in ("S1", "S2", "S3"):
         for _f in ("A", "R", "AR"):
             SEEDS.append((_route, _c, _f))
+for _f in ("A", "R", "AR"):
+    SEEDS.append(("seq_copy", "S4", _f))
 for _c in ("S1", "S3"):
     for _f in ("A", "R", "AR"):
         SEEDS.append(("bar_copy", _c, _f))
